@@ -86,14 +86,14 @@ package file
 //@ ensures missing [C18] (=> (not (has H0 (pathJoin (S_Persist.basepath p) name))) (isErr err))
 
 //@ func (Persist).Store
-//@ tags C17 C18
+//@ tags C03 C17 C18
 //@ uses cateps
 //@ modifies W G.fsHas G.fsData Arr.Bytes@fresh
 //@ requires nodename [C17] (not (isTemp (pathJoin (S_Persist.basepath p) name)))
 // no assumption about what is at the final name on entry: an earlier writer (or release) may have
 // left a torn or stale file there, and a successful Store must still end with exactly the bytes.
 // The crash clause is relative: no partial node becomes visible that was not visible before.
-//@ ensures written [C17 C18] (=> (= err anil) (and (has H (pathJoin (S_Persist.basepath p) name)) (= (data H (pathJoin (S_Persist.basepath p) name)) (bs.val bytes))))
+//@ ensures written [C03 C17 C18] (=> (= err anil) (and (has H (pathJoin (S_Persist.basepath p) name)) (= (data H (pathJoin (S_Persist.basepath p) name)) (bs.val bytes))))
 //@ ensures nopartial [C17] (=> (NoPartial H0 (pathJoin (S_Persist.basepath p) name) (bs.val bytes)) (NoPartial H (pathJoin (S_Persist.basepath p) name) (bs.val bytes)))
 //@ ensures others [C18] (forall ((q Bytes)) (! (=> (and (not (= q (pathJoin (S_Persist.basepath p) name))) (not (isTemp q))) (and (= (has H q) (has H0 q)) (= (data H q) (data H0 q)))) :pattern ((has H q)) :pattern ((data H q))))
 //@ after-each-call nopartial [C17] (=> (NoPartial H0 (pathJoin (S_Persist.basepath p) name) (bs.val bytes)) (NoPartial H (pathJoin (S_Persist.basepath p) name) (bs.val bytes)))
